@@ -683,7 +683,13 @@ func (h *Host) EmitEvent(e cadence.Event) error {
 	if e.EventType != nil {
 		id = e.EventType.ID()
 	}
-	idx, err := h.call("EmitEvent", id)
+	arg := id
+	if strings.HasSuffix(id, ".World.Mark") {
+		if vals := getCompositeFieldValues(e); len(vals) == 1 {
+			arg += ":" + vals[0].String()
+		}
+	}
+	idx, err := h.call("EmitEvent", arg)
 	if err != nil {
 		return err
 	}
